@@ -264,5 +264,8 @@ class C26(Check):
                     finally:
                         shutil.rmtree(tmp, ignore_errors=True)
                     if evs[i]["outcome"] == "timeout":
-                        raise core.Infra("start-up run timed out twice: " + json.dumps(cases[i])[:300])
+                        with open(os.path.join(core.OUT, "failed-C26-timeout.json"), "w") as f:
+                            json.dump(cases[i], f)
+                        raise core.Infra("start-up run timed out twice (case kept in out/failed-C26-timeout.json): "
+                                         + json.dumps(cases[i])[:300])
         return [[e] for e in evs]
